@@ -3,6 +3,7 @@
   block of the harness on `Store.Seq`, compares every observation (correspondence) and evaluates the
   property predicates on the IMPLEMENTATION's observations (violation search).
 -/
+import GoHeader.Store.DelCache
 import GoHeader.Oracle.Common
 import GoHeader.Store.Seq
 namespace GoHeader.Oracle
@@ -359,14 +360,20 @@ def storeLine (o : OSt) (line : String) : OSt :=
 
 
 /-- `kind=readduringdelete`: a read of an already processed height while DeleteRange is under way must not bring it back -/
-def evalReadDuringDelete (_ins outs : List String) : Verdict :=
-  match kv? outs "delete", kv? outs "byheight", kv? outs "byhash", kv? outs "has" with
-  | some del, some bh, some bx, some has =>
+def evalReadDuringDelete (ins outs : List String) : Verdict :=
+  match kvNat? ins "n", kvNat? ins "to", kv? outs "delete", kv? outs "byheight", kv? outs "byhash", kv? outs "has" with
+  | some n, some to, some del, some bh, some bx, some has =>
     if del != "ok" then .prop "c14_error_returned" s!"delete={del} although no handler failed" else
     if bh != "-" || bx != "-" || has != "-" then
       .prop "c08_removed" s!"DeleteRange returned nil, still retrievable: by height {bh}, by hash {bx}, Has {has}"
-    else .ok "readduringdelete"
-  | _, _, _, _ => .bad "readduringdelete fields"
+    else
+      -- the same interleaving on the batch/cache model (theorem c08_deleted_is_gone_under_concurrent_reads): before each
+      -- height h >= 3 is processed, height h-2 is read
+      let range := (List.range (to - 1)).map (· + 1)
+      let evs := range.flatMap (fun h => (if h ≥ 3 then [Store.DelCache.Ev.read (h - 2)] else []) ++ [Store.DelCache.Ev.del]) ++ [.del, .del]
+      let m := Store.DelCache.run true ((List.range n).map (· + 1)) range evs
+      if m.phase != 2 || range.any (fun h => m.ds.contains h || m.cache.contains h) then .bad "readduringdelete: model" else .ok "readduringdelete"
+  | _, _, _, _, _, _ => .bad "readduringdelete fields"
 
 /-- `kind=stopsync`: Stop overlapping a Sync with unflushed headers: after the restart everything appended before Stop is there -/
 def evalStopSync (_ins outs : List String) : Verdict :=
